@@ -280,7 +280,8 @@ theorem print_stable (ops : KeyOps K) (d : Desc K) (hn : DescNormal ops d) :
   obtain ⟨text, h1, h2⟩ := print_parse ops d hn
   exact ⟨text, h1, d, h2, h1, fun _ _ _ => rfl⟩
 
--- GOAL (not proved): parse_print_idem: parse s = some d → ∃ d', parse (print d) = some d' ∧ print d' = print d ∧ equal scripts — needs "the parser only produces Normal descriptors" (normalisation of {a,b} → <a;b>, ' / H → h, upper-case hex, leading zeros, white space and `_` in numbers); decided by the correspondence and the variant-spelling predicate on embit only
+-- Normalisation of ARBITRARY accepted text (`parse_print_idem`: parse s = some d → print d is accepted and parses to d;
+-- the parser only produces `DescNormal` objects) is proved in Props/C12X.lean.
 
 /-! ### non-vacuity: a toy instance of the key operations satisfies the hypotheses -/
 
@@ -318,9 +319,10 @@ theorem toyKey_normal : KeyNormal toyOps false false toyKey := by
   · intro o ho
     simp only [toyKey, Option.some.injEq] at ho
     subst ho
-    exact ⟨rfl, by decide⟩
-  · exact keyText_pub_sec toyOps false false toyKey (2 :: List.replicate 32 7) rfl rfl rfl
+    exact rfl
+  · obtain ⟨kt, h1, h2, h3, h4, h5⟩ := keyText_pub_sec toyOps false false toyKey (2 :: List.replicate 32 7) rfl rfl rfl
       ⟨2, List.replicate 32 7, rfl, Or.inl ⟨by simp, Or.inl rfl⟩⟩ rfl
+    exact ⟨kt, h1, fun _ => h2, h3, h4, h5⟩
   · intro h; cases h
   · intro ix h; cases h
 
